@@ -3,7 +3,6 @@ package file
 
 import (
 	"fmt"
-	"strings"
 
 	"gopkg.in/sourcemap.v1"
 )
@@ -149,12 +148,23 @@ func (fl *File) Position(idx Idx) *Position {
 
 	position.Filename = fl.name
 	position.Offset = offset
-	position.Line = strings.Count(src, "\n") + 1
 
-	if index := strings.LastIndex(src, "\n"); index >= 0 {
-		position.Column = offset - index
-	} else {
-		position.Column = len(src) + 1
+	// ECMA-262 5.1 - 7.3: LF, CR, LS and PS end a line, CR LF is one line terminator.
+	// The column counts characters (UTF-16 code units), not bytes.
+	position.Line, position.Column = 1, 1
+	for i, chr := range src {
+		switch {
+		case chr == '\r' && i+1 < len(fl.src) && fl.src[i+1] == '\n':
+			// the line ends with the LF
+			position.Column++
+		case chr == '\n', chr == '\r', chr == '\u2028', chr == '\u2029':
+			position.Line++
+			position.Column = 1
+		case chr >= 0x10000:
+			position.Column += 2
+		default:
+			position.Column++
+		}
 	}
 
 	if fl.sm != nil {
